@@ -65,6 +65,24 @@ Proof.
   destruct (set_expire fresh_hdr (ttl + sec ts)); intros X; inversion X; subst; auto.
 Qed.
 
+Lemma vers_zset_item (S : Z -> Prop) s k v st x : S v -> vers_in S st -> vers_in S (zset_item s k v st x).
+Proof.
+  intros Hv V. unfold zset_item. destruct x. destruct (el_get s TZ k v (SB b)); [destruct (score_of e =? z); auto|];
+    repeat (apply vers_el_put; auto). now apply vers_el_del.
+Qed.
+Lemma vers_zdel_item (S : Z -> Prop) s k v st x : vers_in S st -> vers_in S (zdel_item s k v st x).
+Proof. intros V. unfold zdel_item. destruct (el_get s TZ k v (SB x)); auto. apply vers_el_del. now apply vers_el_del. Qed.
+Lemma vers_fold_zdel {A} (S : Z -> Prop) s k v (f : A -> bytes) l : forall st, vers_in S st ->
+  vers_in S (fold_left (fun st0 a => zdel_item s k v st0 (f a)) l st).
+Proof. induction l as [|x l IH]; intros st V; simpl; auto. apply IH. now apply vers_zdel_item. Qed.
+Lemma vers_fold_zset (S : Z -> Prop) s k v l : S v -> forall st, vers_in S st -> vers_in S (fold_left (zset_item s k v) l st).
+Proof. intros Hv. induction l as [|x l IH]; intros st V; simpl; auto. apply IH. now apply vers_zset_item. Qed.
+Lemma vers_zrem_entries (S : Z -> Prop) s k h ud ents : S (h_ver h) -> vers_in S s -> vers_in S (fst (zrem_entries s k h ud ents)).
+Proof.
+  intros Hh V. unfold zrem_entries. cbn [fst]. apply vers_incr_size; auto.
+  now apply (vers_fold_zdel S s k (h_ver h) (fun x : Z * bytes => snd x)).
+Qed.
+
 Section Step.
   Variables (S : Z -> Prop) (ts : Z).
   Let S' := fun v => S v \/ v = ts.
@@ -183,15 +201,22 @@ Section Step.
       destruct (coll_header Compact s ts TS k) as [[h ud] ex]. destruct (not_exist_or_expired ud ex); cbn [fst]; auto.
       destruct (size_of ud =? 0); cbn [fst]; auto. now apply vers_coll_rem.
     - (* zadd *) unfold do_zadd. destruct sml; cbn [fst]; auto. destruct (coll_prepare Compact s ts TZ k) as [[h ud] ex] eqn:E. cbn [fst].
-      pose proof (prep_ver _ _ _ _ _ _ V E) as Hh. apply vers_incr_size; auto. now apply vers_fold_put.
+      pose proof (prep_ver _ _ _ _ _ _ V E) as Hh. apply vers_incr_size; auto.
+      now apply vers_fold_zset.
     - (* zincrby *) unfold do_zincrby. destruct (coll_prepare Compact s ts TZ k) as [[h ud] ex] eqn:E.
       pose proof (prep_ver _ _ _ _ _ _ V E) as Hh.
-      destruct (el_get s TZ k (h_ver h) (SB m)); cbn [fst]; apply vers_el_put; auto. apply vers_incr_size; auto.
-    - (* zrem *) now apply vers_coll_rem.
+      destruct (el_get s TZ k (h_ver h) (SB m)); cbn [fst]; repeat (apply vers_el_put; auto).
+      + now apply vers_el_del.
+      + apply vers_incr_size; auto.
+    - (* zrem *) unfold do_zrem. destruct ms as [|m0 ms]; cbn [fst]; auto.
+      destruct (coll_header Compact s ts TZ k) as [[h ud] ex] eqn:E. destruct ex; cbn [fst]; auto.
+      apply vers_incr_size.
+      + destruct ud as [[a b]|]; [intros _; eapply hdr_ver; eauto | simpl; lia].
+      + now apply (vers_fold_zdel S' s k (h_ver h) (fun x : bytes => x)).
     - (* zremrangebyscore *) unfold do_zremrangebyscore. destruct (coll_header Compact s ts TZ k) as [[h ud] ex] eqn:E.
       destruct ex; cbn [fst]; auto. destruct (size_of ud =? 0) eqn:Z0; cbn [fst]; auto.
-      apply vers_incr_size; [|now apply (vers_fold_del S' TZ k (h_ver h) (fun m0 : bytes => SB m0))].
-      destruct ud as [[a b]|]; [intros _; eapply hdr_ver; eauto | simpl in Z0; discriminate].
+      apply vers_zrem_entries; auto.
+      destruct ud as [[a b]|]; [eapply hdr_ver; eauto | simpl in Z0; discriminate].
     - (* lpush *) unfold do_lpush. destruct (Z.of_nat (length vs) >? max_batch_num); cbn [fst]; auto.
       destruct (coll_prepare Compact s ts TL k) as [[h ud] ex] eqn:E. pose proof (prep_ver _ _ _ _ _ _ V E) as Hh.
       destruct (list_meta_of ud) as [[hd0 tl0] size]. destruct vs; cbn [fst]; auto.
@@ -237,8 +262,7 @@ Section Step.
       match goal with |- context [if ?c then _ else _] => destruct c end.
       { destruct (not_exist_or_expired ud false); cbn [fst]; auto. now apply vers_meta_del. }
       match goal with |- context [if ?c then _ else _] => destruct c end; cbn [fst]; auto.
-      match goal with |- context [if ?c then _ else _] => destruct c end; cbn [fst]; apply vers_incr_size; auto.
-      now apply (vers_fold_del S' TZ k (h_ver h) (fun m0 : bytes => SB m0)).
+      match goal with |- context [if ?c then _ else _] => destruct c end; [cbn [fst]; apply vers_incr_size; auto | now apply vers_zrem_entries].
   Qed.
 End Step.
 
